@@ -204,6 +204,50 @@ func runCase(c *kit.Case, cf cfg) {
 		occupied[pa] = true
 	}
 
+	// page migration before the run (Find, change PAddr, Update — as mem/acceptancetests/pagemigration does): some
+	// pre-inserted pages move to another frame of the window in front of the allocation cursor
+	if rng.Intn(2) == 0 {
+		keys := make([]pkey, 0, len(pre))
+		for k := range pre {
+			keys = append(keys, k)
+		}
+		sort.Slice(keys, func(i, j int) bool {
+			if keys[i].pid != keys[j].pid {
+				return keys[i].pid < keys[j].pid
+			}
+			return keys[i].vaddr < keys[j].vaddr
+		})
+		for _, k := range keys {
+			if rng.Intn(3) != 0 {
+				continue
+			}
+			nf := (cf.CursorPage + uint64(rng.Intn(cf.Frames+1))) * pageSize
+			if occupied[nf] {
+				continue
+			}
+			pg, found := pt.Find(k.pid, k.vaddr)
+			if !found {
+				continue
+			}
+			// the old frame stays occupied only if another pre-inserted page shares it
+			old := pg.PAddr
+			pg.PAddr = nf
+			pt.Update(pg)
+			pre[k] = pg
+			occupied[nf] = true
+			shared := false
+			for k2, p2 := range pre {
+				if k2 != k && p2.PAddr == old {
+					shared = true
+				}
+			}
+			if !shared {
+				delete(occupied, old)
+			}
+			r.Count("pages_migrated_with_Update_before_the_run", 1)
+		}
+	}
+
 	spec := mmu.DefaultSpec()
 	spec.Freq = timing.Freq(cf.MMUMHz) * timing.MHz
 	spec.Latency = cf.Latency
